@@ -44,6 +44,8 @@ pub struct Report {
     pub wellformed_errors: Vec<String>,
     /// C06: tree shape / list-tree agreement
     pub tree_errors: Vec<String>,
+    /// C10: the growth threshold after the last resize (not part of C05)
+    pub threshold_errors: Vec<String>,
     pub shape_fp: u64,
     pub locked_bins: usize,
     /// per bin: (kind: 0 empty, 1 list, 2 tree, 3 moved, 4 corrupt; node count)
@@ -309,8 +311,8 @@ pub fn report_of_dump<V: VidOf>(d: &Dump<'_, Key, V>, hash: HashKind, quiescent:
                 rep.wellformed_errors.push("allocated table with zero bins".into());
             }
             let n = t.bins.len() as isize;
-            if d.size_ctl != n - (n >> 2) {
-                rep.wellformed_errors.push(format!("size_ctl is {} at quiescence, expected 3/4 of table length {} = {}", d.size_ctl, n, n - (n >> 2)));
+            if d.size_ctl >= 0 && d.size_ctl != n - (n >> 2) {
+                rep.threshold_errors.push(format!("size_ctl is {} at quiescence, expected 3/4 of table length {} = {}", d.size_ctl, n, n - (n >> 2)));
             }
         }
     }
